@@ -263,6 +263,21 @@ pub fn shape_json(s: &Sh) -> J {
 
 /// Hand-written naming templates: references, namespaces (inherited / overridden / dotted / empty),
 /// recursion through union, array and map, mutual recursion.
+/// Schemas whose *size* crosses a varint boundary: 130 union branches / enum symbols (indices 63|64
+/// and 127|128 change the encoded length of the index).
+pub fn wide_templates() -> Vec<(&'static str, J)> {
+    let mut branches: Vec<J> = vec![json!("null")];
+    for i in 1..130 {
+        branches.push(json!({"type": "fixed", "name": format!("W{i}"), "size": 1}));
+    }
+    let symbols: Vec<String> = (0..130).map(|i| format!("Y{i}")).collect();
+    vec![
+        ("wide-union", J::Array(branches.clone())),
+        ("wide-union-in-record", json!({"type":"record","name":"WR","fields":[{"name":"u","type": J::Array(branches)},{"name":"t","type":"int"}]})),
+        ("wide-enum", json!({"type":"enum","name":"WE","symbols":symbols})),
+    ]
+}
+
 pub fn naming_templates() -> Vec<(&'static str, J)> {
     vec![
         ("ref-fixed", json!({"type":"record","name":"R","fields":[{"name":"a","type":{"type":"fixed","name":"F","size":2}},{"name":"b","type":"F"}]})),
